@@ -243,6 +243,45 @@ def h_two_concrete_evals(env, order):
         env.deriv("dres_x%d" % i, res[0], ("X", (0, i, 0)), dres[0, i, 0])
 
 
+def h_dft_kernel(env, mode, nspin, nc=2):
+    """the training-time evaluator DFTKernel (ciderpress/models/dft_kernel.py): get_k_and_deriv returns the same kernel values as get_k
+    and their exact derivative with respect to the raw features (through the real get_descriptors / apply_descriptor_grad of
+    KernelEvalBase, abstract feature maps, a real DiffRBF); at the control points themselves get_k reproduces the covariance matrix
+    get_kctrl builds (the K_mm and K_nm of the GP are the same function)."""
+    dk, K = env.m.dft_kernel, env.m.kernels
+    X = _inputs(env, nspin)
+    env.eps_zero()
+    fl = _featlist(env)
+    kern = K.DiffRBF(length_scale=env.arr("l", (fl.nfeat,), "pos", lo="1/8", hi="8"))
+    d = dk.DFTKernel(kern, fl, mode, stubs.make_abs_baseline(env, "M"), None)
+    shape = (2, nc, fl.nfeat) if mode == "POL" else (nc, fl.nfeat)
+    d.X1ctrl = env.arr("Xc", shape, lo="-4", hi="4")
+    ok, out = env.attempt("get_k_and_deriv_returns", lambda: d.get_k_and_deriv(X.copy()))
+    if not ok:
+        return
+    k, dkdx = out
+    ok, k0 = env.attempt("get_k_returns", lambda: d.get_k(X.copy()))
+    if not ok:
+        return
+    kshape = (nc, nspin, 1) if mode == "SEP" else (nc, 1)
+    env.check("shapes", np.shape(k) == kshape and np.shape(k0) == kshape and np.shape(dkdx) == (nc, nspin, N0, 1), "%s %s %s" % (np.shape(k), np.shape(k0), np.shape(dkdx)))
+    if np.shape(k) != kshape or np.shape(dkdx) != (nc, nspin, N0, 1):
+        return
+    for c in range(nc):
+        vals = [k[c, s, 0] for s in range(nspin)] if mode == "SEP" else [k[c, 0]]
+        vals0 = [k0[c, s, 0] for s in range(nspin)] if mode == "SEP" else [k0[c, 0]]
+        for n, (a, b) in enumerate(zip(vals, vals0)):
+            env.equal("get_k_equals_get_k_and_deriv_c%d_%d" % (c, n), a, b)
+        tot = sum(vals, env.const(0))
+        for s in range(nspin):
+            for i in range(N0):
+                env.deriv("dk_c%d_s%d_x%d" % (c, s, i), tot, ("X", (s, i, 0)), dkdx[c, s, i, 0])
+                if mode == "SEP":
+                    for s2 in range(nspin):
+                        if s2 != s:
+                            env.deriv("channel_%d_kernel_ignores_channel_%d_c%d_x%d" % (s2, s, c, i), k[c, s2, 0], ("X", (s, i, 0)), env.const(0))
+
+
 def tasks(tier):
     out = []
     for kern in ("rbf", "const*rbf", "poly"):
@@ -279,6 +318,8 @@ def tasks(tier):
     out.append(Task("c_evaluator/RBFEvaluator", c11.h_rbf, dict(kind="const*full"), mods="kernels", max_paths=16))
     out.append(Task("c_evaluator/AntisymRBFEvaluator", c11.h_antisym, {}, mods="kernels", max_paths=16))
     out.append(Task("c_evaluator/SpinRBFEvaluator", c11.h_spin, {}, mods="kernels", max_paths=16))
+    for mode, ns in [("SEP", 2), ("NPOL", 2), ("POL", 2), ("POL", 1)] + ([("SEP", 1), ("NPOL", 1)] if tier == "thorough" else []):
+        out.append(Task("dft_kernel/%s/nspin%d" % (mode, ns), h_dft_kernel, dict(mode=mode, nspin=ns), mods="kernels", max_paths=64, timeout_ms=60000))
     return out
 
 
@@ -297,7 +338,7 @@ def prepare(tier):
 META = dict(
     explanation="symbolic execution of the real evaluator assembly code with contract stubs for verified leaves; z3 decides "
                 "dres == d(res)/d(X0T) and vrho_tuple == d(res)/d(rho tuple) on every path through the cutoff comparisons",
-    functions=["ciderpress/dft/xc_evaluator.py: KernelEvalBase.get_descriptors/apply_descriptor_grad/apply_baseline/_baseline, MappedDFTKernel.__call__, MappedXC.__call__, GlobalLinearEvaluator.__call__",
+    functions=["ciderpress/models/dft_kernel.py: DFTKernel.__init__, get_k, get_k_and_deriv (dft_kernel/*)", "ciderpress/dft/xc_evaluator.py: KernelEvalBase.get_descriptors/apply_descriptor_grad/apply_baseline/_baseline, MappedDFTKernel.__call__, MappedXC.__call__, GlobalLinearEvaluator.__call__",
                "ciderpress/dft/xc_evaluator2.py: KernelEvalBase2.get_descriptors/apply_descriptor_grad/apply_libxc_baseline_/_get_baseline, MappedDFTKernel2.__call__, MappedXC2.__call__",
                "ciderpress/dft/baselines.py: every function in BASELINE_CODES, _sl_x_helper, get_sigma, get_dsigma, get_gga_c, get_libxc_baseline, get_libxc_baseline_ss, get_libxc_baseline_os"],
     bounds=dict(sample_points=1, nspin="1, 2", modes="SEP, NPOL, POL", raw_features=4, evaluators="1-2 accumulating", kernels="1-2 summed",
